@@ -233,6 +233,11 @@ func (r *Run) verifyTop() {
 	// preconditions
 	if r.spec != nil {
 		for i, c := range r.spec.Requires {
+			if c.Label == "handover" && fn.Parent() != nil {
+				// a fact about shared state at the moment a literal is handed to another thread: an obligation of the
+				// thread that hands it over, not something the literal may assume when it eventually runs
+				continue
+			}
 			g := penv.evalBool(c.E)
 			if penv.err != nil {
 				r.fatal = fmt.Sprintf("%s requires %d: %v", funcKey(fn), i+1, penv.err)
